@@ -6,6 +6,7 @@ import (
 	"go/build/constraint"
 	"io/fs"
 	"os"
+	"path"
 	"strings"
 
 	"golang.org/x/exp/maps"
@@ -221,8 +222,8 @@ func rawLoadPackage(sys fs.FS, pkg string) (*token, error) {
 		if len(matches) > 0 {
 			var m []string
 			for _, f := range matches {
-				if strings.HasSuffix(f, "_test.go") {
-					continue
+				if base := path.Base(f); strings.HasSuffix(f, "_test.go") || strings.HasPrefix(base, "_") || strings.HasPrefix(base, ".") {
+					continue // the go tool ignores these files as well
 				}
 				m = append(m, f)
 			}
